@@ -12,7 +12,7 @@ FACTS = ["Bool", "Leaf", "ConfigLoop"]
 COQ_HEADER = "From SPV Require Import CorrDefs.CorrC15."
 COQ_CASE_TYPE = "case"
 RULE = ("kw_only dataclasses (1-5 leaves, up to 2 levels of nested dataclasses; nested members declared with default_factory=Class, "
-        "default_factory=lambda: Class(leaf=..) or without a default) whose leaves range over the intersection of the CLI and the "
+        "default_factory=lambda: Class(leaf=..), without a default, or as `Optional[Class] = None` holding an instance or None) whose leaves range over the intersection of the CLI and the "
         "serialization grammars {int, float (exact short decimals), str, bool, Enum, Path, Optional[T], List[T], Tuple[..] fixed "
         "(homogeneous / heterogeneous) and variadic, Optional of a container}; each leaf has a definition default (or is required) and "
         "an instance value, both from the leafdsl pools (big ints, '', digit-like / 'True' / 'none' strings, non-ASCII, every enum "
@@ -90,14 +90,14 @@ def _rand_node(rng, counter, depth, all_defaults=False):
         fields.append(_leaf(f"f{len(fields)}", t, d, L.rand_value(rng, t)))
     if depth > 0:
         for _ in range(rng.choice([0, 1, 1, 2])):
-            mode = rng.choice(["factory", "factory", "factory_kw", "required"])
-            sub = _rand_node(rng, counter, depth - 1, all_defaults=(mode != "required"))
+            mode = rng.choice(["factory", "factory", "factory_kw", "required", "optional", "optional"])
+            sub = _rand_node(rng, counter, depth - 1, all_defaults=(mode not in ("required", "optional")))
             kw = {}
             if mode == "factory_kw":
                 for f in sub["fields"]:
                     if "ty" in f and rng.random() < 0.6:
                         kw[f["name"]] = L.rand_value(rng, f["ty"], allow_none=False)
-            fields.append({"name": f"n{len(fields)}", "cls": sub, "mode": mode, "kw": kw})
+            fields.append({"name": f"n{len(fields)}", "cls": sub, "mode": mode, "kw": kw, "present": rng.random() < 0.7})
     if all_defaults:
         # a class built by a default_factory must be constructible without arguments
         for f in fields:
@@ -122,7 +122,8 @@ def _force_defaults(rng, node):
 def _revalue(rng, node, tries=6):
     """the same class tree with another instance (different from the first whenever the pools allow it)"""
     def once(n):
-        return {"cname": n["cname"], "fields": [dict(f, value=L.rand_value(rng, f["ty"])) if "ty" in f else dict(f, cls=once(f["cls"]))
+        return {"cname": n["cname"], "fields": [dict(f, value=L.rand_value(rng, f["ty"])) if "ty" in f
+                                                else dict(f, cls=once(f["cls"]), present=rng.random() < 0.7)
                                                 for f in n["fields"]]}
     for _ in range(tries):
         m = once(node)
@@ -195,6 +196,30 @@ def gen(tier, seed):
         c = {"schema": sch, "schema2": _revalue(rng, sch)}
         c.update({"fmt": rng.choice(FMTS), "via": rng.choice(VIAS), "api": rng.choice(APIS), "saver": rng.choice(SAVERS)})
         cases.append(c)
+    # `m: Optional[Class] = None` members: holding an instance whose leaves are all file-native (int/float/str/bool/list/None, so the
+    # value read from the file IS the parsed value), holding an instance with a tuple / Enum / Path leaf, holding None; depth 1 and 2;
+    # every format x route
+    native = [{"k": "int"}, {"k": "float"}, {"k": "str"}, {"k": "bool"}, {"k": "list", "item": {"k": "int"}}, {"k": "opt", "item": {"k": "str"}},
+              {"k": "list", "item": {"k": "str"}}, {"k": "opt", "item": {"k": "int"}}]
+    for i in range(96 if tier == "quick" else 640):
+        kind = i % 3
+        pool = native if kind != 1 else native + [COLOR, {"k": "path"}, {"k": "tupfix", "items": [{"k": "int"}, {"k": "str"}]}]
+        leaves = []
+        for j in range(rng.randint(1, 3)):
+            t = rng.choice(pool)
+            d = _rand_default(rng, t, 0.25)
+            v = L.rand_value(rng, t) if rng.random() < 0.6 or d is None else d      # often exactly the definition default
+            leaves.append(_leaf(f"f{j}", t, d, v))
+        member = {"cname": "C2", "fields": leaves}
+        if i % 2:
+            member = {"cname": "C1", "fields": [_leaf("f0", {"k": "int"}, {"t": "int", "v": "0"}, {"t": "int", "v": rng.choice(L.INTS)}),
+                                                {"name": "n1", "cls": member, "mode": "optional", "kw": {}, "present": kind != 2 or rng.random() < 0.5}]}
+        root = {"cname": "C0", "fields": [_leaf("f0", {"k": "str"}, {"t": "str", "v": "d"}, {"t": "str", "v": rng.choice(L.STRS)}),
+                                          {"name": "n1", "cls": member, "mode": "optional", "kw": {}, "present": kind != 2 or bool(i % 2)}]}
+        c = {"schema": root}
+        c.update(_routes(idx))
+        idx += 5
+        cases.append(c)
     # block 2: random trees
     n = 1500 if tier == "quick" else 15000
     for _ in range(n):
@@ -224,7 +249,9 @@ def _classes(node, saver, out):
                 lines.append(f"    {f['name']}: {ann} = {L.default_src(f['default'])}")
         else:
             cn = f["cls"]["cname"]
-            if f["mode"] == "required":
+            if f["mode"] == "optional":
+                lines.append(f"    {f['name']}: Optional[{cn}] = None")
+            elif f["mode"] == "required":
                 lines.append(f"    {f['name']}: {cn}")
             elif f["mode"] == "factory":
                 lines.append(f"    {f['name']}: {cn} = field(default_factory={cn})")
@@ -245,14 +272,21 @@ def instance_src(node):
     for f in node["fields"]:
         if "ty" in f:
             args.append(f"{f['name']}={L.value_py(f['value'])}")
+        elif _absent(f):
+            args.append(f"{f['name']}=None")
         else:
             args.append(f"{f['name']}={instance_src(f['cls'])}")
     return f"{node['cname']}({', '.join(args)})"
 
 
+def _absent(f):
+    """an `Optional[Class] = None` member that holds None in the instance"""
+    return f.get("mode") == "optional" and not f.get("present", True)
+
+
 def intended(node):
     """the instance as the tree of canonical values the property demands back"""
-    return [[f["name"], f["value"] if "ty" in f else intended(f["cls"])] for f in node["fields"]]
+    return [[f["name"], f["value"] if "ty" in f else ({"t": "none"} if _absent(f) else intended(f["cls"]))] for f in node["fields"]]
 
 
 def _tree_of(canon_dc):
@@ -365,6 +399,9 @@ def _diffs(node, got, path=""):
         if "ty" in f:
             if g != f["value"]:
                 out.append((p, f, g))
+        elif _absent(f):
+            if g != {"t": "none"}:
+                out.append((p, None, g))
         else:
             out += _diffs(f["cls"], g, p)
     return out
@@ -379,6 +416,9 @@ def _spec_step(case, schema, obs):
     if d:
         p, f, g = d[0]
         if f is None:
+            if g == {"t": "none"}:
+                return (f"member {p} (Optional[Class] = None) was saved holding an instance and came back as None "
+                        f"[{case['fmt']}, {case['via']}, {case['api']}]")
             return f"returned object has the wrong shape at {p!r}: {str(g)[:200]}"
         return (f"field {p}: {L.annotation(f['ty'])} (effective definition default {f['default']}) was saved as {f['value']} and came back as {g} "
                 f"[{case['fmt']}, {case['via']}, {case['api']}]")
@@ -399,13 +439,17 @@ def _sig_step(schema, obs):
     if not obs["built_ok"] and obs["stage"] != "build":
         return "harness:instance-not-built"
     if obs["outcome"][0] != "ok":
+        if obs["stage"] == "parse" and obs["outcome"][:2] == ["raise", "TypeError"] and _absent_member_with_bare_tuple(schema):
+            return "none-member:tuple-field-without-default:TypeError"
         return f"{obs['stage']}:" + ":".join(str(x) for x in obs["outcome"][:2])
     d = _diffs(effective(schema), obs["inst"])
     if not d:
         return "other"
     p, f, g = d[0]
     if f is None:
-        return "wrong-shape"
+        if g == {"t": "none"}:
+            return "optional-member:instance->none"
+        return "wrong-shape" if isinstance(g, list) or g.get("t") != "dc" else "optional-member:none->instance"
     t, v = f["ty"], f["value"]
     if v["t"] == "none" and t["k"] == "opt" and f["default"] is not None and g == f["default"]:
         return "null-saved:definition-default-back"
@@ -417,7 +461,29 @@ def _sig_step(schema, obs):
     return "leaf:" + _shape(t) + ":" + v["t"] + "->" + str(g.get("t"))
 
 
-KNOWN_CLASSES = ("null-saved:", "items-stay-str:")
+KNOWN_CLASSES = ("null-saved:", "items-stay-str:", "none-member:")
+
+
+def _bare_tuple_inside(node):
+    for f in node["fields"]:
+        if "ty" in f:
+            if f["ty"]["k"] in ("tupfix", "tupvar") and (f["default"] is None or f["default"].get("t") == "none"):
+                return True
+        elif _bare_tuple_inside(f["cls"]):
+            return True
+    return False
+
+
+def _absent_member_with_bare_tuple(node):
+    """an `Optional[Class] = None` member holding None whose class (at any depth) has a Tuple field without a definition default"""
+    for f in node["fields"]:
+        if "cls" in f:
+            if _absent(f):
+                if _bare_tuple_inside(f["cls"]):
+                    return True
+            elif _absent_member_with_bare_tuple(f["cls"]):
+                return True
+    return False
 
 
 def signature(case, obs, reason):
@@ -455,7 +521,7 @@ def features(case, obs):
     return d
 
 
-def effective(node):
+def effective(node, under_opt=False):
     """the class tree with every nested leaf's definition default replaced by what FieldWrapper.default falls back to: the attribute
     of the enclosing member's default instance (default_factory=lambda: Class(leaf=..)) when it names the leaf, else the class's own"""
     fs = []
@@ -463,8 +529,9 @@ def effective(node):
         if "ty" in f:
             fs.append(f)
         else:
-            sub = effective(f["cls"])
-            if f["mode"] == "factory_kw" and f["kw"]:
+            inside = under_opt or f["mode"] == "optional"
+            sub = effective(f["cls"], inside)
+            if f["mode"] == "factory_kw" and f["kw"] and not under_opt:
                 sub = {"cname": sub["cname"], "fields": [dict(g, default=f["kw"][g["name"]]) if ("ty" in g and g["name"] in f["kw"]) else g
                                                          for g in sub["fields"]]}
             fs.append(dict(f, cls=sub))
@@ -478,7 +545,8 @@ def _schema_coq(node):
             fs.append(cpair(cstr(f["name"]), f"(SLeaf {L.ty_coq(f['ty'])} "
                             + (copt(L.value_coq(f["default"])) if f["default"] is not None else "None") + ")"))
         else:
-            fs.append(cpair(cstr(f["name"]), _schema_coq(f["cls"])))
+            sub = _schema_coq(f["cls"])
+            fs.append(cpair(cstr(f["name"]), f"(SOpt {sub})" if f["mode"] == "optional" else sub))
     return "(SNode " + clist(fs) + ")"
 
 
